@@ -359,6 +359,9 @@ class Intrinsics:
         return acc
 
     def b_all(self, P, it):
+        if type(it).__name__ == 'SymSetImage':   # absnodes
+            from . import absnodes
+            return absnodes.all_image(P, it)
         rs = [P.truthy(x) for x in P.iterate(it)]
         if any(r is False for r in rs):
             return False
